@@ -559,7 +559,7 @@ static rc::Gen<Case> gen_long(int tier) {
     int alg, mode;
     int64_t total;
     if (tier == 0) {  // quick: one case does everything once
-      alg = 4;
+      alg = 3;
       mode = *range<int>(5, 8);
       total = ((int64_t)1 << 29) + *range<int>(0, 200);
     } else {
@@ -626,7 +626,7 @@ static Outcome run_long(const Case &c) {
   std::string blk = prbytes((uint64_t)c[0].a[3], 1 << 20);
   for (int a = 0; a < 3; a++) {
     if (!(alg == 3 || alg == a || (alg == 4 && a != 0))) continue;
-    if (mode <= 3 || mode >= 5) run_long1(o, a, total, mode >= 5 ? mode - 5 : mode, blk);
+    if (mode <= 3 || (mode >= 5 && !(a == 0 && single_ok))) run_long1(o, a, total, mode >= 5 ? mode - 5 : mode, blk);  // SHA-256 has a 64-bit counter: in the combined modes only the single update
     if ((mode == 4 || mode >= 5) && single_ok) run_long1(o, a, total, 4, blk);
     if (mode == 4 && !single_ok) run_long1(o, a, total, 0, blk);
   }
@@ -665,7 +665,7 @@ int main(int argc, char **argv) {
   subs.push_back({"long",
                   "SHA-1/MD5/SHA-256 over 2^29+k bytes (k in -70..70, up to +-2^21; sometimes 2^30+k) fed from one buffer in chunks of 1 MiB, "
                   "1 MiB+1, 1 MiB-61, 8 MiB, or as ONE update (len >> 29 != 0), so the 32-bit halves of the SHA-1/MD5 bit counters carry; "
-                  "quick: a single case running SHA-1 and MD5 over 2^29+k (k in 0..200) bytes, chunked and as one update. Oracle: "
+                  "quick: a single case running SHA-1 and MD5 over 2^29+k (k in 0..200) bytes, chunked and as one update, and SHA-256 as one update. Oracle: "
                   "OpenSSL EVP fed the same chunks. Non-trivial: >= 2 updates or a carry",
                   gen_long, run_long});
   return pbt_main(argc, argv, subs);
